@@ -188,12 +188,14 @@ def _merge(res, leg, children):
             info["violations_total"] = info.get("violations_total", 0) + i.get("violations_total", 0)
             info["truncated"] = bool(info.get("truncated")) or bool(i.get("truncated"))
             info["shard_walls"] = info.get("shard_walls", [info.get("wall")]) + [i.get("wall")]
+            info["shard_cpus"] = info.get("shard_cpus", [info.get("cpu")]) + [i.get("cpu")]
         else:
             d = inter.setdefault(label, {"evaluations": 0, "violations_total": 0, "wall": [], "truncated": False,
                                          "python": i.get("python"), "counts": {}})
             d["evaluations"] += r["evaluations"]
             d["violations_total"] += i.get("violations_total", len(r["violations"]))
             d["wall"].append(i.get("wall"))
+            d.setdefault("cpu", []).append(i.get("cpu"))
             d["truncated"] = d["truncated"] or bool(i.get("truncated"))
             _add_counts(d["counts"], {k: v for k, v in i.get("counts", {}).items()
                                       if k in ("programs", "branch_vectors", "observation_points", "throw_runs",
@@ -335,6 +337,7 @@ def leg_purity(tier="quick", seed=0):
     import stackscope
     ll = core._ll()
     t0 = time.time()
+    c0 = time.process_time()
     cfg = PURITY[tier]
     col = core.Collector("purity")
     rng = random.Random(seed * 9176 + 11)
@@ -477,7 +480,8 @@ def leg_purity(tier="quick", seed=0):
                             del refs
     finally:
         ll.set_trickery_enabled(None)
-    return col.result(wall=round(time.time() - t0, 2), truncated=truncated, tier=tier, seed=seed)
+    return col.result(wall=round(time.time() - t0, 2), cpu=round(time.process_time() - c0, 2),
+                      truncated=truncated, tier=tier, seed=seed)
 
 
 # ------------------------------------------------------------------------------------------
@@ -714,7 +718,7 @@ def main(argv=None):
             json.dump(r, fh, indent=1, default=repr)
     info = dict(r["info"])
     print(json.dumps({"evaluations": r["evaluations"], "violations_total": info.get("violations_total"),
-                      "counts": info.get("counts"), "wall": info.get("wall"), "truncated": info.get("truncated"),
+                      "counts": info.get("counts"), "wall": info.get("wall"), "cpu": info.get("cpu"), "shard_cpus": info.get("shard_cpus"), "truncated": info.get("truncated"),
                       "interpreters": info.get("interpreters")}, indent=1, default=repr))
     for v in r["violations"][:5]:
         print("VIOLATION", v["what"])
